@@ -19,6 +19,7 @@ import itertools
 from mc import backends, compare, core, diff, explorer, inputs, menus
 from mc import hist as H
 from mc.hist import C, V, O, U, M, F
+from mc.props import c18
 
 PROP = "C04"
 
@@ -200,6 +201,11 @@ def work(hists, tier, open_ids):
             for opt, g in failed[:1]:
                 part.violation({"history": hist, "dialect": dialect, "options": opt, "error": compare.brief(g)}, f"{dialect}: options {opt} make translation fail ({g[1]}) while the default options translate: {label}")
             for data in datas:
+                if "special" not in hist and c18.determined(hist, data) is False:
+                    # a limit cutting through distinguishable tied rows (or ties in a window order): two correct
+                    # texts may legitimately return different rows, the answer is not determined
+                    part.count("skipped_order_dependent")
+                    continue
                 rb = backends.run_sql(base[1], data)
                 stop = False
                 for text, opts in texts.items():
@@ -238,6 +244,7 @@ def run(tier):
     run.set("option_settings", len(option_grid(tier)))
     run.assumptions += [
         "pgtext@sqlite = PostgreSQL-dialect SQL text executed on the SQLite engine (no PostgreSQL server exists here); all variants of one dialect run on the same engine, so engine-specific value semantics cancel",
+        "inputs whose answer is not determined (a limit cutting through distinguishable tied rows, ties in a window order) are excluded via the reference model's tie detection and counted",
         "extend merging is switched through the model attribute allow_extend_merges; CTE elimination through SQLFormatOptions.use_cte_elim (effective on the PostgreSQL dialect only, SQLiteModel declares supports_cte_elim=False)",
     ]
     return run.finish(
